@@ -20,7 +20,8 @@ RULE = ("each seeded busy scenario (target context with requests awaiting ACK, a
         "traffic) is first run without shutdown to collect its event boundaries (every distinct instant at which the "
         "target context sent, received or was called), then re-run once per boundary with Context.shutdown() started "
         "just before the events of that instant (as a task, or with shutdown()'s synchronous part executed in the same loop "
-        "iteration as the instant's datagram deliveries) and just after them (quick: 10 sampled points per scenario, thorough: all) "
+        "iteration as the instant's datagram deliveries; from inside one of the context's own request handlers; by a "
+        "task that is cancelled right after shutdown's first step) and just after them (quick: 10 sampled points per scenario, thorough: all) "
         "and drained to quiescence. evaluations counts scenario runs; shutdown_points_enumerated counts the nested runs. "
         "Non-trivial = at least one piece of work was outstanding at the shutdown instant; distinct = distinct hash of "
         "(scenario shape, set of outstanding-work kinds at the shutdown instants).")
@@ -37,7 +38,7 @@ EXPECTED_PROBES = ["awaiting_ack", "awaiting_separate_response", "mid_blockwise"
 
 OTHER_IP = "fd00::3"
 ACTIVITIES = ["t_req_silent", "t_req_acked", "t_backlog", "t_get_big", "t_put_big", "t_observe", "s_req_slow",
-              "s_observe", "s_req_fast", "o_req", "t_backlog_acked", "s_token_reuse", "t_req_tcp", "s_req_tcp"]
+              "s_observe", "s_req_fast", "o_req", "t_backlog_acked", "s_token_reuse", "t_req_tcp", "s_req_tcp", "t_req_cancel"]
 
 
 def gen(r, tier):
@@ -49,7 +50,7 @@ def gen(r, tier):
         acts.append({"a": "s_req_slow", "t": 0.1, "d": 0.3})
     acts.append({"a": "o_req", "t": round(r.uniform(0.0, 2.0), 3), "d": 0.2})
     changes = sorted(round(r.uniform(0.5, 3.0), 3) for _ in range(r.randint(0, 4)))
-    return {"acts": acts, "changes": changes, "boundaries": "sample:%d" % (15 if tier == "quick" else 100000),
+    return {"acts": acts, "changes": changes, "boundaries": "sample:%d" % (20 if tier == "quick" else 100000),
             "bseed": r.randrange(1 << 30)}
 
 
@@ -114,6 +115,7 @@ def run_world(scn, shutdown_at, seed):
     try:
         loop = sim.loop
         handlers = []  # dict: started, ended, how
+        sd = {"t_start": None, "t_return": None, "after": None, "snapshot": None}
 
         class Slow(resource.Resource):
             async def render_get(self, request):
@@ -133,6 +135,18 @@ def run_world(scn, shutdown_at, seed):
         class Fast(resource.Resource):
             async def render_get(self, request):
                 return Message(payload=b"fast")
+
+        class Quit(resource.Resource):
+            """the application shuts its context down from one of the context's own request handlers"""
+
+            async def render_get(self, request):
+                quit_hook[0]()
+                await the_target[0].shutdown()
+                sd["t_return"] = loop.now
+                return Message(payload=b"bye")
+
+        quit_hook = [lambda: None]
+        the_target = [None]
 
         class Big(resource.Resource):
             async def render_get(self, request):
@@ -161,6 +175,7 @@ def run_world(scn, shutdown_at, seed):
             tsite = resource.Site()
             tsite.add_resource(["slow"], Slow())
             tsite.add_resource(["fast"], Fast())
+            tsite.add_resource(["quit"], Quit())
             tsite.add_resource(["counter"], tcounter)
             osite = resource.Site()
             osite.add_resource(["big"], Big())
@@ -206,6 +221,7 @@ def run_world(scn, shutdown_at, seed):
         tcp_listener = TcpPeerListener(sim, TCP_PEER_IP, 5683, tcp_server_peer)
         tcp_clients = []
         T, O = loop.run_until_complete(setup())
+        the_target[0] = T
         taddr = (common.SERVER_IP, 5683)
         peer = Peer(sim, common.PEER_IPS[0], 5683)
         peer2 = Peer(sim, common.PEER_IPS[1], 5683)
@@ -234,6 +250,16 @@ def run_world(scn, shutdown_at, seed):
                 # lets the next one out
                 for j in range(3):
                     t_request(tag + ".%d" % j, Message(code=GET, uri="coap://[%s]/acked?%d" % (peer2.addr[0], j)))
+            elif k == "t_req_cancel":
+                # the application gives up on a request of its own (cancels the response future) -- possibly in the very
+                # instant the context is shut down
+                rec = ttrack.start(tag, T, Message(code=GET, uri="coap://[%s]/silent?c" % peer.addr[0]), handle_blockwise=False)
+
+                def cancel(rec=rec, tag=tag):
+                    sim.log("app", "cancel", tag)
+                    if not rec["req"].response.done():
+                        rec["req"].response.cancel()
+                loop.at(loop.now + a["d"], cancel)
             elif k == "t_req_tcp":
                 t_request(tag + ".silent", Message(code=GET, uri="coap+tcp://[%s]/silent" % TCP_PEER_IP))
                 t_request(tag + ".late", Message(code=GET, uri="coap+tcp://[%s]/late" % TCP_PEER_IP))
@@ -292,7 +318,6 @@ def run_world(scn, shutdown_at, seed):
         # a request of the other context well after any shutdown instant
         loop.at(8.0, lambda: otrack.start("o_after", O, Message(code=GET, uri="coap://[%s]/echo?after" % peer2.addr[0])))
 
-        sd = {"t_start": None, "t_return": None, "after": None, "snapshot": None}
         if shutdown_at is not None:
             t_sd, after = shutdown_at
 
@@ -310,12 +335,29 @@ def run_world(scn, shutdown_at, seed):
                 sd["snapshot"] = snap
 
                 async def go():
-                    await T.shutdown()
+                    try:
+                        await T.shutdown()
+                    except asyncio.CancelledError:
+                        raise
+                    except BaseException as e:
+                        # shutdown() itself raised: reported as its own kind by the oracle
+                        sd["raised"] = "%s: %s" % (type(e).__name__, e)
+                        sim.log("app", "shutdown-raised", type(e).__name__)
+                        return
                     sd["t_return"] = loop.now
                     sim.log("app", "shutdown-returned")
                     # a request submitted after shutdown has returned
                     rec = ttrack.start("after-shutdown", T, Message(code=GET, uri="coap://[%s]/echo" % peer2.addr[0]))
                     rec["submitted_after"] = loop.now
+                if after == 3:
+                    return  # (the handler of /quit calls shutdown itself)
+                if after == 4:
+                    # whoever awaits shutdown() is cancelled right after shutdown's first step (an application task
+                    # being torn down, wait_for with a time-out): the shutdown has to go through all the same
+                    task = loop.create_task(go())
+                    loop.call_soon(lambda: loop.call_soon(task.cancel))
+                    keep_tasks.append(task)
+                    return
                 if after == 2:
                     # the synchronous part of shutdown() runs right here, i.e. in the same loop iteration as -- and
                     # before -- whatever the sockets deliver in this instant (the datagram "was already in the
@@ -325,7 +367,20 @@ def run_world(scn, shutdown_at, seed):
                     loop.create_task(go())
 
             keep_tasks = []
-            if after == 1:
+            if after in (3, 4):
+                # shutdown's return is not observed by anybody here: a request well after the time-out stands in
+                def late_request():
+                    if sd["t_return"] is None:
+                        sd["t_return"] = sd["t_start"] + 3.0 if sd["t_start"] is not None else None
+                    rec = ttrack.start("after-shutdown", T, Message(code=GET, uri="coap://[%s]/echo" % peer2.addr[0]))
+                    rec["submitted_after"] = loop.now
+                loop.at(t_sd + 3.6, late_request)
+            if after == 3:
+                quit_hook[0] = start_shutdown
+                loop.at(t_sd, lambda: sclient.send(taddr, msg={"type": rc.CON, "code": rc.GET, "mid": 0x5F01, "token": b"\x5f\x01",
+                                                               "options": [(rc.URI_PATH, b"quit")], "payload": b""},
+                                                   fate=["deliver", 0.0]))
+            elif after == 1:
                 # just after everything that happens in that instant: run as the last simulator event of the instant
                 def arm():
                     loop.call_soon(lambda: loop.call_soon(start_shutdown))
@@ -384,6 +439,8 @@ def execute(sim, scn):
         pts.append((t, 1))
         if sys.version_info >= (3, 12):
             pts.append((t, 2))
+        pts.append((t, 3))
+        pts.append((t, 4))
     sel = scn.get("boundaries", "all")
     if isinstance(sel, list):
         chosen = [(p[0], int(p[1])) for p in sel]
@@ -424,7 +481,7 @@ def execute(sim, scn):
 def judge(sim, scn, base, base_exc, res, t_sd, after):
     error = res["error"]
     sd = res["sd"]
-    ident = {"shutdown_at": t_sd, "phase": ["before", "after", "same-iteration"][int(after)]}
+    ident = {"shutdown_at": t_sd, "phase": ["before", "after", "same-iteration", "from-handler", "caller-cancelled"][int(after)]}
     kinds = set()
     if sd["t_start"] is None:
         return kinds  # the run ended before that instant
@@ -457,6 +514,9 @@ def judge(sim, scn, base, base_exc, res, t_sd, after):
         sim.probe(k)
     ident["outstanding"] = sorted(kinds)
     # ---- shutdown completes, in time
+    if sd.get("raised"):
+        sim.violation("C18/shutdown-raises:%s" % sd["raised"].split(":")[0], dict(ident, error=sd["raised"][:200]))
+        return kinds
     if sd["t_return"] is None:
         sim.violation("C18/shutdown-does-not-complete", ident)
         return kinds
